@@ -25,6 +25,8 @@ EXPLANATION = (
 
 
 def run(ctx: Ctx) -> None:
+    from .c02 import rule_index_space
+    rule_index_space(ctx)   # the deterministic solver behind this property: emitter register numbers vs tableau positions
     from ..rules import tableau as _tbx
     _tbx.rule_xz_rowops(ctx, ["graphiq/backends/stabilizer/functions/linalg.py", "graphiq/backends/stabilizer/functions/stabilizer.py"])
     from ..rules import echelon as _echelon
